@@ -59,8 +59,11 @@ class ModGen:
             mids.append(new(kinds_mid[i % len(kinds_mid)]))
         fixed_ids = {}
         if fixed:
-            for nm in ("fx_inl", "fx_exits_f", "fx_gen_drv", "fx_async", "fx_yf", "fx_with", "fx_cexits"):
+            for nm in ("fx_inl", "fx_exits_f", "fx_gen_drv", "fx_async", "fx_yf", "fx_with", "fx_cexits", "fx_zoo"):
                 fixed_ids[nm] = new("def")
+        # one small function of every plain kind, leaving by raise / return / falling off the end
+        self.zoo = [new(pk) for pk in ("def", "nested", "lambda", "meth", "smeth", "cmeth", "emeth", "cfunc", "cvoid",
+                                       "cint", "ccall")] if fixed else []
         self.early_ids = [new("def"), new("def")] if early else []
         self.cpw_id = new("def") if cpw else None
         gens = []
@@ -89,6 +92,10 @@ class ModGen:
         # ---- bodies, bottom-up
         for j in leaves:
             self.fns[j]["body"] = self.leaf_body(self.fns[j]["pk"])
+        for j in self.zoo:
+            lf = r.choice([c for c in leaves if self.fns[c]["pk"] != "cvoid"])
+            self.fns[j]["body"] = [("lcall", [lf])] if self.fns[j]["pk"] == "lambda" else \
+                [("if", [("raise",)], []), ("if", [("return",)], []), ("call", lf)]
         for j in self.cpw_fns:
             self.fns[j]["body"] = [("if", [("raise",)], []), ("call", r.choice(leaves))]
         if self.cpw_fns:
@@ -114,7 +121,7 @@ class ModGen:
     def callable_after(self, j, expr=False):
         ok = [k for k in self.order if k > j and self.fns[k]["pk"] in F_KINDS and self.fns[k]["pk"] != "ccallpy"
               and "name" not in self.fns[k] and k not in self.early_ids and k != self.cpw_id
-              and k not in self.fixed_ids.values()]
+              and k not in self.fixed_ids.values() and k not in self.zoo]
         if expr:
             ok = [k for k in ok if self.fns[k]["pk"] != "cvoid"]
         return ok
@@ -151,7 +158,9 @@ class ModGen:
             opts += ["loop", "try", "try", "fin", "with", "ifc"]
         if in_gen and not in_fin:
             opts += ["yield"] * 5
-        if pk not in ("lambda",) and depth < 2 and not in_gen:
+        if pk in ("coro", "agen"):
+            opts = ["call"] * 4 + ["ifraise", "if", "try", "ifc"] + (["yield"] * 3 if in_gen else [])
+        elif pk not in ("lambda",) and depth < 2 and not in_gen:
             if self.gens_after(j):
                 opts += ["for", "drive", "drive", "consume"]
             if self.gens_after(j, ("coro",)):
@@ -216,7 +225,6 @@ class ModGen:
             return [("lcall", [r.choice(cal) for _ in range(r.randint(1, 2))])]
         if pk in ("coro", "agen"):
             b = [self.stmt(j, pk, 1, False, pk == "agen", False) for _ in range(r.randint(1, 3))]
-            b = [s for s in b if s[0] in ("call", "if", "yield", "try", "ifc")]
             if pk == "agen":
                 b.insert(r.randint(0, len(b)), ("yield",))
                 if r.random() < 0.5:
@@ -311,6 +319,7 @@ class ModGen:
         F[fi["fx_with"]]["body"] = [("with", [("call", lv[0])]), ("try", [("with", [("raise",)])], []),
                                     ("with", [("with", [("call", lv[1])])]),
                                     ("fin", [("try", [("call", lv[0])], [("call", lv[1])])], [("call", lv[4])])]
+        F[fi["fx_zoo"]]["body"] = [("try", [("call", z)], []) for z in self.zoo]
         F[fi["fx_cexits"]]["body"] = [("try", [("call", c)], [("call", lv[0])])
                                       for c in lv if F[c]["pk"] in ("cfunc", "cint", "cvoid")] + \
                                      [("loop", [("call", lv[1])], [("return",)])]
@@ -431,8 +440,8 @@ class Render:
             return "','.join(str(%s) %s)" % (el, rng)
         if how in ("min", "max"):
             return "%s(((%s or 0) %s), default=0)" % (how, el, rng)
-        if how == "sum":
-            return "sum((%s or 0) %s)" % (el, rng)
+        if how in ("sum", "sorted"):
+            return "%s((%s or 0) %s)" % (how, el, rng)
         if how == "for":
             return "(%s %s)" % (el, rng)
         return "%s(%s %s)" % (how, el, rng)
